@@ -467,12 +467,16 @@ ASSUMPTIONS = ['asyncio primitives (Queue, wait_for, Semaphore FIFO, shield, Fut
                'the batch function raises / yields Exception subclasses only; what it does after its last yield is not observed',
                'batch_timeout >= 1 tick, max_batch_size >= 1 (also after mutation), max_concurrent_batches >= 1, '
                'retention_timeout and batch_timeout are not mutated while running',
-               'macro-step granularity: user code reacting inside the same loop iteration is not modelled (DESIGN §4)',
+               'macro-step granularity: of the user code that reacts inside the same loop iteration only the pattern "a task '
+               'calls the batcher again in the continuation of its answer" (Chain events) is modelled (DESIGN §4)',
                'Python 3.12 asyncio semantics']
 TRUSTED = ['harness/vloop.py (virtual-time loop), harness/batcher_drv.py (driver, canonicalisation: per macro step batch '
            'starts in order, completions sorted by caller id; watchdog for non-terminating runs), '
            'coq/theories/Case_Batcher.v (agree + monitors)',
            'modelled, not verified: asyncio.Queue, wait_for/timeouts, Semaphore, shield, Future done-callbacks, call_later']
-LEVEL_NOTE = ('trusted: Coq kernel + vm_compute; asyncio primitives are modelled, validated only by the correspondence runs; '
-              'harness/vloop.py, harness/batcher_drv.py, coq/theories/Case_Batcher.v')
+LEVEL_NOTE = ('trusted: Coq kernel + vm_compute; asyncio primitives (Queue, wait_for, FIFO Semaphore, shield, Future '
+    'done-callbacks, call_later, task wake-up order) are modelled in Batcher.v and validated only by the '
+    'correspondence runs; harness/vloop.py, harness/batcher_drv.py, coq/theories/Case_Batcher.v (agree + monitors).  '
+    'Monitor soundness is proved only for the simple conjuncts (monitor_sound_partial); the other conjuncts are tied '
+    'to the theorems through agree (model trace = observed trace) on every case')
 TECHNIQUE = 'Coq proof (inductive invariant over a macro-step model) + differential correspondence evaluated by vm_compute'
